@@ -55,9 +55,9 @@ theorem C14_value_roundtrip (L : LibLaws) (st : ST) (b64 : Bool) (v : SV) (h : S
   decElem_encElem L st b64 v h hb
 
 /-- One field — scalar, list, or unset — found under its key and coerced by the constructor. -/
-theorem C14_field_roundtrip (L : LibLaws) (ty : Text) (v : FV) (h : FieldOk L ty v) :
-    decField L ty (some (encField ty v)) = .ok (canonFV v) :=
-  decField_encField L ty v h
+theorem C14_field_roundtrip (L : LibLaws) (kw : Bool) (ty : Text) (v : FV) (h : FieldOk L kw ty v) :
+    decField L kw ty (some (encField ty v)) = .ok (canonFV v) :=
+  decField_encField L kw ty v h
 
 /-- Why `bytes` / `bytes[]` must be in the reader's base64 table (finding #9, fixed): without the decoding step the
     constructor receives text and refuses it. -/
@@ -180,16 +180,16 @@ example : WellTyped idLaws r0 where
     rw [e] at hp
     simp only [List.mem_cons, List.mem_nil_iff, or_false] at hp
     rcases hp with rfl | rfl | rfl | rfl | rfl | rfl | rfl | rfl
-    · exact fieldOk_list idLaws (st := .bytes) (by decide) (fun _ => by decide)
+    · exact fieldOk_list idLaws _ (st := .bytes) (by decide) (fun _ => by decide)
         (by intro x hx; simp at hx; rcases hx with rfl | rfl <;> trivial)
-    · exact fieldOk_one idLaws (st := .boolean) (by decide) (by intro e; cases e) trivial
-    · exact fieldOk_none idLaws (st := .bytes) (by decide) (fun _ => by decide) (by intro e; cases e)
-    · exact fieldOk_one idLaws (st := .int none none) (by decide) (by intro e; cases e) (show inRange none none _ = true by decide)
-    · exact fieldOk_none idLaws (st := .text) (by decide) (by intro e; cases e) (by intro e; cases e)
-    · exact fieldOk_none idLaws (st := .text) (by decide) (by intro e; cases e) (by intro e; cases e)
-    · exact fieldOk_one idLaws (st := .datetime) (by decide) (by intro e; cases e)
+    · exact fieldOk_one idLaws _ (st := .boolean) (by decide) (by intro e; cases e) trivial
+    · exact fieldOk_none idLaws _ (st := .bytes) (by decide) (fun _ => by decide) (by intro e; cases e)
+    · exact fieldOk_one idLaws _ (st := .int none none) (by decide) (by intro e; cases e) (show inRange none none _ = true by decide)
+    · exact fieldOk_none idLaws _ (st := .text) (by decide) (by intro e; cases e) (by intro e; cases e)
+    · exact fieldOk_none idLaws _ (st := .text) (by decide) (by intro e; cases e) (by intro e; cases e)
+    · exact fieldOk_one idLaws _ (st := .datetime) (by decide) (by intro e; cases e)
         (show g0.Valid ∧ g0.tz ≠ .naive ∧ DateTime.OffsetPrintable g0 by decide)
-    · exact fieldOk_one idLaws (st := .int none none) (by decide) (by intro e; cases e) (show inRange none none _ = true by decide)
+    · exact fieldOk_one idLaws _ (st := .int none none) (by decide) (by intro e; cases e) (show inRange none none _ = true by decide)
 -- the written keys, and the full stream read back
 example : objKeys (toJson H0 true r0) = [cps "data", cps "ok", cps "raw", cps "n", cps "_source", cps "_classification",
     cps "_generated", cps "_version", cps "_type", cps "_recorddescriptor"] := by decide
